@@ -707,7 +707,7 @@ func genC12(o *vcoq.Out, r *vcoq.Rand, tier string) error {
 	o.CaseType = "c12case"
 	o.Judge = "judge"
 	o.Shard = 60
-	o.Rule = "one history per generated router per round: registry ops (Add/Remove/Has/Get, wrong-type Add) around 2-3 RPCs for every method of the service (names: registered, fallback, factory, unknown, empty; child scripts: 0-4 messages, header, optional trailer, status or EOF, open/header errors; caller failing SendHeader or the i-th Send); bare-registry histories of 6-25 ops incl. nil clients and re-added clients; forced schedules: all interleavings of 2 and 3 concurrent calls (Get/Add/Remove, up to 3 atomic steps each) in several configurations plus random 3-4 thread schedules; default-name interceptors on every request type (name empty / set) and odd shapes, and sequences of 6-16 requests of types sharing short names across packages/parents with different layouts (name at another number, absent, non-string, repeated) through one unary and one stream interceptor instance. Non-trivial: history with at least one RPC / more than one change / schedule with at least two Gets of one name / request with a string name field. Distinct by the full input+observation term."
+	o.Rule = "one history per generated router per round: registry ops (Add/Remove/Has/Get, wrong-type Add) around 2-3 RPCs for every method of the service (names: registered, fallback, factory, unknown, empty; child scripts: 0-4 messages, header, optional trailer, status or EOF, open/header errors; caller failing SendHeader or the i-th Send); bare-registry histories of 6-25 ops incl. nil clients and re-added clients; forced schedules: all interleavings of 2 and 3 concurrent calls (Get/Add/Remove, up to 3 atomic steps each) in several configurations plus random 3-4 thread schedules; default-name interceptors on every request type (name empty / set) and odd shapes, and sequences of 6-16 requests of types sharing short names across packages/parents with different layouts (name at another number, absent, non-string, repeated) through one unary and one stream interceptor instance; stream sessions: 2-5 request messages (same or mixed types, empty/set names, a failing RecvMsg in the middle) received on ONE wrapped ServerStream, every message checked. Non-trivial: history with at least one RPC / more than one change / schedule with at least two Gets of one name / request with a string name field. Distinct by the full input+observation term."
 	g := &c12{o: o, r: r, tier: tier}
 	o.Extra["rpcs_unary"], o.Extra["rpcs_stream"] = 0, 0
 	rounds, raws := 3, 400
@@ -726,6 +726,7 @@ func genC12(o *vcoq.Out, r *vcoq.Rand, tier string) error {
 	g.schedules()
 	g.nameDefaults()
 	g.defaultSequences()
+	g.streamSessions()
 	g.staticChecks()
 	o.Extra["coverage_extra"] = map[string]any{
 		"routers": len(routerTable), "rpcs_unary": o.Extra["rpcs_unary"], "rpcs_stream": o.Extra["rpcs_stream"],
